@@ -88,7 +88,7 @@ MUTATES_KEY = {
                "set_force_constants_zero_with_radius() modifies in place the array the caller handed to force_constants="),
 }
 
-REQ_INVARIANTS = ["TypeOK", "FreshEquivalent", "DmExists", "Coherent", "MassesConsistent", "ScdCoherent",
+REQ_INVARIANTS = ["TypeOK", "FreshEquivalent", "LazyMeshCurrent", "DmExists", "Coherent", "MassesConsistent", "ScdCoherent",
                   "CopyIndependent", "NoInputAlias", "NoOutputAlias", "NoInputMutation", "NoOutputMutation", "NoTaint"]
 # seeded defects of the mechanism and the invariant that has to catch them
 # (SetMasses / DmqNoRebuild are behaviourally equivalent: the dynamical matrix reads
@@ -99,11 +99,12 @@ FORGET = {"SetFC": "FreshEquivalent", "SetNAC": "FreshEquivalent", "ClearNAC": "
           "SCD": "ScdCoherent", "SCDdisp": "ScdCoherent", "MassU": "MassesConsistent", "MassS": "MassesConsistent"}
 EQUIVALENT_FORGET = ["SetMasses", "DmqNoRebuild"]
 
-TRACE_INVARIANTS = ["ImplNoError", "ImplRefuses", "ImplRefuseFrame", "ImplStored", "ImplFreshEquivalent",
+TRACE_INVARIANTS = ["ImplRefusesStale", "ImplNoError", "ImplRefuses", "ImplRefuseFrame", "ImplStored", "ImplSnapshotFrozen",
+                    "ImplFreshEquivalent",
                     "ImplEnvFrame", "ImplDmExists", "ImplCoherent", "ImplMassesConsistent", "ImplScdCoherent",
                     "ImplCopyIndependent", "ImplAliasOnlyDocumented", "ImplNoForeignMutation",
                     "ConformsEnabled", "ConformsFC", "ConformsNAC", "ConformsMasses", "ConformsDataset",
-                    "ConformsDM", "ConformsGV", "ConformsSCD", "ConformsCopy", "ConformsHeld"]
+                    "ConformsDM", "ConformsGV", "ConformsSCD", "ConformsCopy", "ConformsHeld", "ConformsResults"]
 
 
 def mc_module(alias, forget, layouts=("full", "compact")):
@@ -111,10 +112,11 @@ def mc_module(alias, forget, layouts=("full", "compact")):
             % (to_tla(set(alias)), to_tla(set(forget)), to_tla(set(layouts))))
 
 
-def mc_cfg(max_held, env_aliased, invariants, frame=True, view=True):
+def mc_cfg(max_held, env_aliased, invariants, frame=True, view=True, results=False, repaired=True):
     s = "INIT Init\nNEXT Next\n" + ("VIEW view\n" if view else "") + "CHECK_DEADLOCK FALSE\nCONSTANTS\n"
     s += " Alias <- MCAlias\n Forget <- MCForget\n Layouts <- MCLayouts\n MaxHeld = %d\n EnvAliased = %s\n" % (
         max_held, "TRUE" if env_aliased else "FALSE")
+    s += " Results = %s\n Repaired = %s\n" % ("TRUE" if results else "FALSE", "TRUE" if repaired else "FALSE")
     s += "".join("INVARIANT %s\n" % i for i in invariants)
     if frame:
         s += "PROPERTY EnvFrame\n"
@@ -145,6 +147,24 @@ def model_checking(ctx):
     ctx.exhaustive = True
 
     log("requirement model done: %d states" % res.distinct)
+    # 1b. the same with the result holders (mesh, random-displacement generator, result snapshots) and the
+    #     queries that consume them; the mechanism is the REPAIRED one (fixes/c15-stale-mesh.md)
+    mhr = 0 if ctx.quick else 1
+    res2 = ctx.tlc("MC_ApiHistory", cfg_text=mc_cfg(mhr, True, REQ_INVARIANTS, results=True, repaired=True), requirement=True,
+                   extra_files={"MC_ApiHistory.tla": mc_module([], [])}, workers=(workers if ctx.quick else 6),
+                   what="C15 requirement fails on the model of the API with result holders")
+    ctx.extra["requirement_model_with_result_holders"] = dict(max_held=mhr, states=res2.distinct, depth=res2.depth,
+                                                              violated=res2.violated)
+    # 1c. the mechanism AS FOUND in the pinned tree (a state change keeps the mesh and the generator):
+    #     TLC exhibits the silent staleness; recorded as evidence (the conformance below decides on the code)
+    res3 = ctx.tlc("MC_ApiHistory", cfg_text=mc_cfg(0, False, ["FreshEquivalent", "LazyMeshCurrent"], frame=False,
+                                                    results=True, repaired=False), requirement=False,
+                   extra_files={"MC_ApiHistory.tla": mc_module([], [])}, workers=2)
+    ctx.extra["mechanism_as_found_keeps_mesh"] = dict(
+        violated=res3.violated, counterexample=[(a, st.get("last")) for a, st in (res3.trace or [])][1:])
+    if not res3.violated:
+        raise tlcmod.MachineryError("the unrepaired mechanism (Repaired=FALSE) does not violate FreshEquivalent: vacuous")
+    log("result-holder models done: %d states" % res2.distinct)
     # 2. sensitivity of the invariants (machinery self-check)
     names = sorted(FORGET)
     if ctx.quick:
@@ -179,10 +199,12 @@ def model_checking(ctx):
 
 # ---------------------------------------------------------------------------
 def tla_event(ev):
-    e = {k: ev[k] for k in ("op", "lay", "m", "keep", "f", "typ", "cls", "k", "i", "chg", "refused", "err", "stored", "qok", "frame")}
+    e = {k: ev[k] for k in ("op", "lay", "m", "keep", "f", "typ", "cls", "k", "i", "chg", "own", "via", "snapok", "refused",
+                            "err", "stored", "qok", "frame")}
     o = ev["obs"]
     e["obs"] = dict(layout=o["layout"], nacm=o["nacm"], massS=o["massS"], massU=o["massU"], dsT=o["dsT"], dsF=o["dsF"],
-                    dm=o["dm"], gv=o["gv"], scd=o["scd"], cp=o["cp"], held=[dict(h) for h in o["held"]])
+                    dm=o["dm"], gv=o["gv"], scd=o["scd"], cp=o["cp"], held=[dict(h) for h in o["held"]],
+                    rs=dict(mesh=dict(o["rs"]["mesh"]), rd=o["rs"]["rd"], qp=o["rs"]["qp"], tp=o["rs"]["tp"]))
     return e
 
 
@@ -193,7 +215,7 @@ def data_module(histories):
 
 def trace_cfg(max_held):
     s = "INIT TInit\nNEXT TNext\nCHECK_DEADLOCK FALSE\nCONSTANTS\n Alias <- MCAlias\n Forget <- MCForget\n Layouts <- MCLayouts\n"
-    s += " MaxHeld = %d\n EnvAliased = TRUE\n" % max_held
+    s += " MaxHeld = %d\n EnvAliased = TRUE\n Results = TRUE\n Repaired = TRUE\n" % max_held
     s += "".join("INVARIANT %s\n" % i for i in TRACE_INVARIANTS)
     return s
 
@@ -203,6 +225,10 @@ def describe(hist, upto=None):
     out = []
     for e in evs:
         a = {k: e[k] for k in ("lay", "m", "keep", "f", "typ", "cls", "k", "i") if e[k] not in ("none", 0, False)}
+        if e["op"] == "SetFC" and not e.get("own", True):
+            a["own"] = False
+        if e["op"] == "Copy":
+            a["via"] = e.get("via", "copy")
         out.append(dict(op=e["op"], **a, **({"refused": True} if e["refused"] else {}),
                         **({"err": e["errtext"]} if e["err"] else {})))
     return out
@@ -248,7 +274,7 @@ def validate(ctx, histories, max_held, tag):
                         d.append(dict(world=hist["world"], seed=hist["seed"], source=hist["source"], event=idx,
                                       history=describe(hist, idx), logged=hist["events"][idx - 1]["obs"],
                                       machine={k: st[k] for k in ("layout", "nacm", "massS", "massU", "dsT", "dsF", "dm",
-                                                                  "gv", "scd", "cp", "held") if k in st}))
+                                                                  "gv", "scd", "cp", "held", "rs") if k in st}))
                 continue
             if (name, hid) in seen:
                 continue
@@ -287,7 +313,7 @@ def validate(ctx, histories, max_held, tag):
 # ---------------------------------------------------------------------------
 def simulate_ops(ctx, num, depth, env_aliased, seed):
     """behaviours of the model (implementation's aliasing switched on) from TLC -simulate"""
-    res = ctx.tlc("MC_ApiHistory", cfg_text=mc_cfg(2, env_aliased, ["TypeOK"], frame=False, view=False),
+    res = ctx.tlc("MC_ApiHistory", cfg_text=mc_cfg(2, env_aliased, ["TypeOK"], frame=False, view=False, results=True),
                   requirement=True, extra_files={"MC_ApiHistory.tla": mc_module(PINNED_ALIAS, [])},
                   simulate=dict(num=num, file=True), depth=depth, seed=seed, workers=1, keep=True, timeout=300)
     out = []
@@ -362,7 +388,7 @@ def run(ctx):
             det = json.load(f)["detail"]
         if det.get("world") not in D.WORLDS:
             raise tlcmod.MachineryError("replay file has no driver history (world=%r)" % det.get("world"))
-        ops = [dict(dict(keep=False, f=False, refused=False), **{k: v for k, v in o.items() if k != "err"})
+        ops = [dict(dict(keep=False, f=False, refused=False, own=True, via="copy"), **{k: v for k, v in o.items() if k != "err"})
                for o in det["history"]]
         w = D.World(det["world"], seed=ctx.seed, ctx=ctx)
         evs, drv = D.replay_history(w, np.random.default_rng(det["seed"]), ops, max_held=2,
@@ -381,8 +407,8 @@ def run(ctx):
     worlds = {}
     for wn in world_names:
         worlds[wn] = D.World(wn, seed=ctx.seed, ctx=ctx)
-    n_random = int(os.environ.get("C15_NRANDOM", 60 if ctx.quick else 800))
-    n_sim = int(os.environ.get("C15_NSIM", 40 if ctx.quick else 400))
+    n_random = int(os.environ.get("C15_NRANDOM", 60 if ctx.quick else 600))
+    n_sim = int(os.environ.get("C15_NSIM", 40 if ctx.quick else 300))
     max_held = 2
     histories = []
     margins = []
@@ -419,6 +445,29 @@ def run(ctx):
         [K("Get", cls="primitive_getter"), K("Get", cls="supercell_getter"), K("SetMasses", keep=False), K("Drop", i=1),
          K("Get", cls="unitcell_getter"), K("SetFC", lay="full", keep=False), K("SetMasses", keep=False), K("Query", k="meshgv"),
          K("Copy"), K("SetMasses", keep=False), K("MutateCopy"), K("Query", k="bandgv"), K("Copy")],
+    ]
+    # result holders: run, state change, read back / consume / run again; lazy mesh, IterMesh, generator;
+    # force constants handed in in every other form and kept; ph2ph; dataset = None
+    census += [
+        [K("SetFC", lay="full", keep=False), K("Query", k="mesh"), K("Query", k="tp"), K("Query", k="tdos"),
+         K("SetNAC", m="gonze", keep=False), K("Query", k="mesh"), K("Query", k="tp"), K("Query", k="qp"),
+         K("SetMasses", keep=False), K("Query", k="qp"), K("Query", k="meshfull"), K("Query", k="pdos"), K("Query", k="td"),
+         K("Symmetrize"), K("Query", k="band"), K("Query", k="meshlazy"), K("Query", k="meshdict"), K("Query", k="moment"),
+         K("Cutoff"), K("Query", k="meshiter"), K("Query", k="td"), K("InitRD"), K("Query", k="rdq"), K("SetGV"),
+         K("SetFC", lay="compact", keep=False), K("Query", k="qpgv"), K("InitRD"), K("SetNAC", m="wang", keep=False),
+         K("Query", k="rdq")],
+        [K("SetFC", lay="full", keep=True, own=False), K("Symmetrize"), K("Query", k="qp"), K("MutateHandle", i=1), K("Query", k="qp"),
+         K("Drop", i=1), K("SetFC", lay="full", keep=True, own=False), K("Cutoff"), K("Drop", i=1),
+         K("SetFC", lay="compact", keep=True, own=False), K("Symmetrize"), K("Drop", i=1),
+         K("SetFC", lay="full", keep=True, own=False), K("SymmetrizeSG"), K("Query", k="dmq"), K("Copy", via="ph2ph"),
+         K("MutateCopy"), K("Query", k="qp"), K("SetDataset", f=True, typ="t1", keep=False), K("GetSCD"), K("ClearDataset"),
+         K("SetDataset", f=False, typ="t2", keep=False), K("ClearDataset")],
+        # the staleness itself: a consumer / lazy mesh / generator used after a state change without a new set-up
+        [K("SetFC", lay="full", keep=False), K("Query", k="mesh"), K("Query", k="tp"), K("SetFC", lay="full", keep=False),
+         K("Query", k="tp")],
+        [K("SetFC", lay="full", keep=False), K("Query", k="meshlazy"), K("SetMasses", keep=False), K("Query", k="meshdict")],
+        [K("SetFC", lay="full", keep=False), K("Query", k="meshiter"), K("Symmetrize"), K("Query", k="td")],
+        [K("SetFC", lay="full", keep=False), K("InitRD"), K("SetFC", lay="full", keep=False), K("Query", k="rdq")],
     ]
     for wn in world_names:
         for ci, ops in enumerate(census):
